@@ -54,3 +54,25 @@ func VerifC13Swap(v Value, i, j int) {
 		o.self.swap(i, j)
 	}
 }
+
+// VerifC13FieldCache returns, for a reflect-based struct wrapper, the field wrapper objects currently held in its
+// valueCache, keyed by the script-visible field name.
+func VerifC13FieldCache(v Value) map[string]*Object {
+	o, ok := v.(*Object)
+	if !ok {
+		return nil
+	}
+	r, ok := o.self.(*objectGoReflect)
+	if !ok {
+		return nil
+	}
+	res := make(map[string]*Object, len(r.valueCache))
+	for name, w := range r.valueCache {
+		if w != nil {
+			if wo, ok := w.esValue().(*Object); ok {
+				res[name] = wo
+			}
+		}
+	}
+	return res
+}
